@@ -257,6 +257,9 @@ func parseTOCEStargz(r io.Reader) (toc *JTOC, tocDgst digest.Digest, err error) 
 }
 
 func decompressTOCEStargz(r io.Reader) (tocJSON io.ReadCloser, err error) {
+	if r == nil {
+		return nil, fmt.Errorf("TOC isn't contained in the blob and this decompressor cannot acquire it externally")
+	}
 	zr, err := gzip.NewReader(r)
 	if err != nil {
 		return nil, fmt.Errorf("malformed TOC gzip header: %v", err)
